@@ -542,6 +542,26 @@ impl Session {
             // *Request* carries no sequence number, so the responder correctly
             // expects our first data segment at seq 0.)
             self.recv_window.ack_seq = 0;
+
+            // The Handshake Response is a segment like any other in one more respect: it
+            // occupies one slot of the peer's send window (the responder calls `post_send`
+            // for it) and the peer waits for its acknowledgement - its idle timer is
+            // running from the moment the response was sent.
+            //
+            // So count it as a received, not yet acknowledged segment: it takes one slot of
+            // our receive window, and the ACK timer starts now. The ACK for seq 0 then goes
+            // out with our first data segment, or stand-alone once the ACK timeout expires
+            // (as the reference implementation does: "shrink local receive window counter
+            // by 1, since connect handshake indication requires acknowledgement").
+            //
+            // Without this the response is acknowledged only together with a later segment
+            // of the peer; a peer which has nothing to send never gets its slot back, and
+            // closes the session when its idle timeout expires.
+            //
+            // (`window_size >= 1` here: `process_rx_handshake_resp` refuses a zero window.)
+            self.recv_window.level = window_size.saturating_sub(1);
+            self.recv_window.ack_level = 1;
+            self.recv_window.received_at = Instant::now();
         }
     }
 
